@@ -162,6 +162,10 @@ class ReverseProxy(TcpUpstreamConnectionHandler, HttpWebServerBasePlugin):
                     ),
                 )
 
+    def is_response_pending(self) -> bool:
+        # Responses are relayed from the upstream as and when they arrive.
+        return self.upstream is not None and not self.upstream.closed
+
     def on_client_connection_close(self) -> None:
         if self.upstream and not self.upstream.closed:
             logger.debug('Closing upstream server connection')
